@@ -262,3 +262,25 @@ def _r01_5(repo: Repo, rep: Report) -> None:
                       "modules share one compiled (de)serializer", loc=fi.loc)
     else:
         rep.ok("R01.5", "hash_type_args hashes module-qualified type names", {"body": src[:160]})
+    # injectivity of the composition: the joined names reach the result only through a cryptographic digest; any
+    # character-class substitution / slicing / case folding on the way merges distinct specialisations
+    rets = [n for n in walk_no_nested(fi.node) if isinstance(n, ast.Return) and n.value is not None]
+    lossy = []
+    digest = False
+    for n in ast.walk(fi.node):
+        if isinstance(n, ast.Call):
+            f = ast.unparse(n.func)
+            if f.split(".")[-1] in ("md5", "sha1", "sha256", "sha224", "sha384", "sha512", "blake2b", "blake2s", "sha3_256"):
+                digest = True
+            if f in ("re.sub", "sub") or f.split(".")[-1] in ("replace", "translate", "lower", "upper", "casefold", "strip", "clean_id", "hash", "crc32", "adler32"):
+                lossy.append(ast.unparse(n)[:60])
+        if isinstance(n, ast.Subscript) and isinstance(n.slice, ast.Slice):
+            lossy.append(ast.unparse(n)[:60])
+    if not rets:
+        rep.undecide("R01.5", "hash_type_args has no return")
+    elif lossy or not digest:
+        rep.violation("R01.5", fi.key, f"specialisation key is not an injective digest of the type names ({(lossy or ['no hashlib digest'])[0]})",
+                      "type arguments whose names differ only in characters the transformation merges (Literal['user-created'] / Literal['user_created'], truncated digests, "
+                      "Python's salted hash()) share one compiled method: the second specialisation silently runs the first one's code", loc=fi.loc)
+    else:
+        rep.ok("R01.5", "the specialisation key is a hashlib digest of the joined qualified names, with no lossy step", None)
